@@ -565,6 +565,9 @@ func obtainCollateral(fmspc string, ca string, options *Options) (*Collateral, e
 
 func checkCollateralExpiration(collateral *Collateral, options *Options) error {
 	currentTime := options.Now
+	if currentTime == nil {
+		currentTime = defaultTimeSet()
+	}
 
 	logger.V(1).Info("Checking expiration status of collaterals")
 	tcbInfo := collateral.TdxTcbInfo.TcbInfo
@@ -1494,7 +1497,10 @@ func tdxQuoteV4(quote *pb.QuoteV4, options *Options) error {
 	options.pckCertExtensions = exts
 	options.chain = chain
 	if options.Now == nil {
+		// The default is the time of this call. Do not leave it in the caller's options,
+		// where it would silently become the verification time of every later call.
 		options.Now = defaultTimeSet()
+		defer func() { options.Now = nil }()
 	}
 	return verifyEvidenceV4(quote, options)
 }
